@@ -79,6 +79,13 @@ def bases(tier):
                     out.append(e2.Config(spec=spec, requested=req, context=ctx))
                     if n >= 2:
                         out.append(e2.Config(spec=spec, requested=req, context=ctx, precached=(0,)))
+    # mlflow_run=True types (every execution is wrapped in an mlflow run)
+    for n in (1, 2, 3):
+        for shape in all_shapes(n):
+            if n == 3 and sum(len(d) for d in shape) != 2:
+                continue
+            for types in {('TW',) * n, ('TW',) + ('TF',) * (n - 1)}:
+                out.append(e2.Config(spec=mk_spec(shape, types=types), requested=tuple((i, False) for i in range(n)), context=CTX_VIEW))
     # never-cached types with a per-parameter filter (every such task has the same cache_key)
     for n in (2, 3):
         for shape in all_shapes(n):
@@ -110,7 +117,16 @@ def ctx_work(item):
         if kind == 'e2':
             explore(lambda ch: e2.run_once(cfg, ch), on_exec, max_deviations=1)
         elif kind == 'serial':
-            on_exec(None, run_once_serial(cfg))
+            # with the displays off and on (progress bars, task monitor): the serial backend runs every
+            # task in the caller's process and thread either way
+            for displays in (False, True):
+                obs = run_once_serial(cfg, displays=displays)
+                on_exec(None, obs)
+                me = (os.getpid(), threading.get_ident())
+                for ev in obs.world:
+                    if ev[0] == 'env' and (ev[2], ev[4]) != me:
+                        res.append(('serial:not-callers-thread', f'[real SerialRunner, displays {"on" if displays else "off"}] {ev[1]} ran in process/thread {(ev[2], ev[4])}, '
+                                                                 f'the caller is {me} | cfg={cfg.brief()}', base.spec.n))
         else:
             explore(lambda ch: e3.run_once_e3(cfg, ch), on_exec, max_deviations=1)
             if base.precached:
